@@ -432,17 +432,21 @@ def spec_update(flg, ta, info):
     return tawake, sum(tawake), ba, bind, pind, dind
 
 
-def op_oracle(ctx, lines, outs, infos_by_line):
+def op_oracle(ctx, lines, outs, infos_by_line, model_by_line):
     nfail, checked = 0, 0
+    cur_model = [None]
 
     def fail(key, what, line, out):
         nonlocal nfail
         nfail += 1
         if nfail <= 8:
-            ctx.oracle_failure(key, what, {"line": line[:1500], "impl_output": out[:1500],
-                                           "replay": "printf '<model line>\\n%s\\n' | <c18_sleep harness>" % line[:200]})
+            ctx.oracle_failure(key, what, {"model_line": (cur_model[0] or "")[:6000], "line": line[:1500], "impl_output": out[:1500],
+                                           "replay": "feed model_line, then line, to the harness built from harness/c/c18_sleep.c "
+                                                     "(python3 -c \"import sys;sys.path.insert(0,'/verif/harness');import build;"
+                                                     "print(build.build_harness('/verif/harness/c/c18_sleep.c','c18_sleep',deps=['/verif/harness/mjbuild.h']))\")"})
 
-    for l, o, info in zip(lines, outs, infos_by_line):
+    for l, o, info, ml in zip(lines, outs, infos_by_line, model_by_line):
+        cur_model[0] = ml
         w = l.split(" ", 1)[0]
         if o == "bad-op" or o.startswith("model"):
             continue
@@ -872,12 +876,13 @@ def run(ctx):
     rc, outs, err = ctx.run_lines([impl], lines)
     if rc == 0 and len(outs) == len(lines):
         line_model = {v: k for k, v in models.items()}
-        cur, by_line = None, []
+        cur, curm, by_line, model_by_line = None, None, [], []
         for l in lines:
             if l in line_model:
-                cur = infos[line_model[l]]
+                cur, curm = infos[line_model[l]], l
             by_line.append(cur)
-        op_oracle(ctx, lines, outs, by_line)
+            model_by_line.append(curm)
+        op_oracle(ctx, lines, outs, by_line, model_by_line)
         if outs[0] != "minawake 10 kawake -11 states -1 0 1":
             ctx.sample({"note": "header constants changed", "const": outs[0]})
         for i in (5, len(lines) // 2, len(lines) - 10):
